@@ -16,16 +16,16 @@ def main():
         thor = [f.replace(" (thorough)", "") for f in m.get("checks_fired", []) if "(thorough)" in f]
         own = sorted({f for f in fired + thor if f.startswith(m["property"] + ".")})
         other = sorted({f for f in fired if not f.startswith(m["property"] + ".")})
-        rows.append((n, m["property"], "yes" if m.get("confirmed") else "NO", ", ".join(own) or "—", ", ".join(other) or "—",
+        rows.append((n, str(m.get("round", 1)), m["property"], "yes" if m.get("confirmed") else "NO", ", ".join(own) or "—", ", ".join(other) or "—",
                      m.get("first_run_caught_by", "")))
-    print("| seeded change | property | confirmed | fired: own property's check | fired: other properties (quick) | before strengthening |")
-    print("|---|---|---|---|---|---|")
+    print("| seeded change | round | property | confirmed | fired: own property's check | fired: other properties (quick) | before strengthening |")
+    print("|---|---|---|---|---|---|---|")
     for r in rows:
         print("| " + " | ".join(r) + " |")
-    n_own = sum(1 for r in rows if r[3] != "—")
+    n_own = sum(1 for r in rows if r[4] != "—")
     print(f"\n{len(rows)} seeded changes, {n_own} caught by their own property's check, "
-          f"{sum(1 for r in rows if r[3] == '—' and r[4] != '—')} only by another property's check, "
-          f"{sum(1 for r in rows if r[3] == '—' and r[4] == '—')} missed.")
+          f"{sum(1 for r in rows if r[4] == '—' and r[5] != '—')} only by another property's check, "
+          f"{sum(1 for r in rows if r[4] == '—' and r[5] == '—')} missed.")
 
 
 if __name__ == "__main__":
